@@ -252,6 +252,18 @@ Fixpoint run_resumes (a : assets) (tmo : text) (lv : live) (ops : list (bool * r
       end
   end.
 
+(* restart pattern [bs] applied to the resumes [rs] (a pattern that is too short is continued with "keep alive") *)
+Fixpoint with_pattern (bs : list bool) (rs : list resume) : list (bool * resume) :=
+  match rs with
+  | [] => []
+  | r :: rs' => match bs with
+                | [] => (false, r) :: with_pattern [] rs'
+                | b :: bs' => (b, r) :: with_pattern bs' rs'
+                end
+  end.
+
+Definition never (rs : list resume) : list (bool * resume) := with_pattern [] rs.
+
 Definition run_history (a : assets) (tmo : text) (t : trigger) (flow : id) (batch : bool) (ops : list (bool * resume)) : list obs :=
   let '(res, tr) := live_start a t flow batch in
   {| o_outcome := outcome_of batch (Resumed res) tr; o_context := tr |} ::
